@@ -13,6 +13,7 @@ INVARIANT C17_RejLimitsAbsent
 INVARIANT C17_RejZeroWeight
 INVARIANT C17_RejZeroSigmaSign
 INVARIANT C17_RejModesAgree
+INVARIANT C17_RejGrowSupersetLaw
 INVARIANT C17_RejExpectedAccepted
 INVARIANT C17_RejDevDiffers
 INVARIANT C17_MIOnlyMaskedChange
